@@ -10,6 +10,7 @@ package main
 
 import (
 	"bufio"
+	"errors"
 	"fmt"
 	"io/ioutil"
 	"log"
@@ -412,6 +413,48 @@ func e2eExec(w *world, f []string) (res string) {
 		}
 		sn := e.settle(e.exp, p0, 0)
 		return "refreshed=1 " + e2eSnapString(sn)
+	case "e2efailover":
+		succ := evIP(atoi(f[1])).String()
+		rows := parseEvRows(f[2])
+		if len(rows) == 0 {
+			return "bad-op"
+		}
+		sn0 := e.snap()
+		// every host the driver knows refuses new connections, except the successor: the reconnect loop (old control host
+		// first, then the other hosts of the ring in a random order) can only end there
+		var hooked []*memcluster.Node
+		for _, h := range sn0.RingByID {
+			_, _, ca := gocql.VerifHostAddrs(h)
+			if ca == nil || ca.String() == succ {
+				continue
+			}
+			if n := e.cl.Nodes[ca.String()]; n != nil {
+				n.DialHook = func(*memcluster.Node, int) error {
+					if e.cp.ControlConn() != nil {
+						return nil // the driver has its control connection again: pools may connect (a new node may sit on this address)
+					}
+					return &net.OpError{Op: "dial", Err: errors.New("memcluster: connection refused")}
+				}
+				hooked = append(hooked, n)
+			}
+		}
+		e.setRows(rows)
+		_, p0 := e.cp.Counts()
+		e.peers0 = p0
+		e.noteRefreshAfterBatch(rows)
+		e.expectRefresh(rows, sn0)
+		if !e.cp.DropControl() {
+			return "err:no-control-connection"
+		}
+		sn := e.settle(e.exp, p0, 0)
+		for _, n := range hooked {
+			n.DialHook = nil
+		}
+		reg := "0" // (with topology AND status events disabled the driver has nothing to REGISTER for)
+		if sc := e.cp.ControlConn(); sc != nil && len(memcluster.Registered(sc)) > 0 {
+			reg = "1"
+		}
+		return fmt.Sprintf("refreshed=1 ctl=%d reg=%s ", evIDNum(gocql.VerifControlHost(e.sess.S)), reg) + e2eSnapString(sn)
 	case "e2eorder":
 		// n STATUS_CHANGE frames for n different (unknown) addresses, written back to back: do they reach the
 		// debouncer's buffer in wire order? (before the repair of KF-C16-2 each frame was handed over by its own goroutine)
@@ -730,6 +773,38 @@ func (g *evGen) e2e(idx int) {
 			refreshed = strings.HasPrefix(a, "refreshed=1")
 		case x < 82: // control connection reset (optionally after a change nobody announced)
 			cls := "e2e/control-connection-lost"
+			// a successor for the control connection: a peer the driver holds (valid row, accepted, reached at its node address)
+			succ := -1
+			for i, p := range peers {
+				if _, inRing := sn.RingByID[evUUID(p.id)]; inRing && p.defect == "" && p.dc != 3 && p.rpc == p.addr {
+					succ = i
+					break
+				}
+			}
+			if os.Getenv("VERIF_DEBUG") != "" {
+				fmt.Fprintf(os.Stderr, "succ=%d peers=%v ring=%d\n", succ, peers, len(sn.RingByID))
+			}
+			if succ >= 0 && r.Bool() {
+				// FAILOVER: the control host is gone for good; while no control connection exists the cluster changes (the
+				// events are lost); the driver lands on the successor, whose tables are the cluster as it is now
+				cls = "e2e/control-host-gone/failover-to-another-host"
+				ctl = peers[succ]
+				peers = append(peers[:succ], peers[succ+1:]...)
+				switch r.Intn(3) {
+				case 0:
+					peers = append(peers, newMember())
+					cls += "+new-node-during-the-gap"
+				case 1:
+					if len(peers) > 0 {
+						i := r.Intn(len(peers))
+						peers = append(peers[:i], peers[i+1:]...)
+						cls += "+removed-node-during-the-gap"
+					}
+				}
+				a := g.emit(fmt.Sprintf("e2efailover %d %s", ctl.rpc, rowsStr(rows())), cls, true)
+				refreshed = strings.HasPrefix(a, "refreshed=1")
+				break
+			}
 			if r.Bool() {
 				peers = append(peers, newMember())
 				cls += "+unannounced-new-node"
